@@ -84,8 +84,16 @@ def run(tier):
     chk = Check(PROP, tier)
     chk.model("MC_Vectors")
     # static half: symbolic placement, every access of every routine inside its region
-    found = c09.analyse(chk, tier, ("C11",))
-    c09.report(chk, found, strip)
+    # If the abstract machine cannot interpret the current assembly (an opcode or operand form in no table, a mask
+    # value it does not compute) that is not a verdict: the guard-page executions below still decide; only when
+    # they find nothing is the run inconclusive (exit 2).
+    deferred = None
+    try:
+        found = c09.analyse(chk, tier, ("C11",))
+        c09.report(chk, found, strip)
+    except core.Infra as e:
+        deferred = e
+        chk.notes.append("static half not completed: %s" % str(e)[:300])
     # dynamic half: guard pages
     cmds = gen(chk, tier)
     chk.exec_and_validate("T_Guard", cmds, keyfn, accel=True, pure_budget=0)
@@ -97,6 +105,8 @@ def run(tier):
             c["cls"] = "glue_" + c.get("cls", "")
     chk.exec_and_validate("T_Guard", gl, lambda b: "glue." + keyfn(b), accel=True, pure_budget=0, tag="glue",
                           variant="glue")
+    if deferred is not None and not chk.bad:
+        raise deferred
     return chk.finish(
         "model_checking",
         "static: the TLA+ abstract machine executes every extracted amd64 routine for each length vector with pointers "
